@@ -608,6 +608,7 @@ pub fn gen_cfg(i: usize) -> crate::progen::Cfg {
         vec_generics: i % 5 != 0,
         dyn_generics: i % 2 == 0,
         generic_fn_values: false,
+        ..Default::default()
     }
 }
 
